@@ -46,7 +46,7 @@ def _cases(draw):
         gaps.append({"agent": draw(st.sampled_from(list(TGT) + [SEN[0]])), "step": draw(st.integers(1, n))})
     return {"start": iso(t0), "dt": draw(st.sampled_from([30, 60, 300, 225, 675])), "n": n, "extras": draw(st.integers(0, 5)), "gaps": gaps,
             "missing_agent": draw(st.sampled_from([None, None, None, TGT[1]])), "sensors_imported": draw(st.booleans()), "targets_realtime": draw(st.sampled_from([False, False, True])),
-            "obs_imported": draw(st.booleans()),
+            "obs_imported": draw(st.booleans()), "obs_both": draw(st.sampled_from([False, False, True])),
             # the importing scenario may split the same agents over two tasking engines (each sensor/target pair of the source
             # run stays inside one engine)
             "two_engines": draw(st.sampled_from([False, False, "same_split", "split_only_importing", "shared_target"]))}
@@ -149,17 +149,21 @@ def importer(c, rec):
         # "split_only_importing": the producing run had one engine, so stored observations pair sensors and targets that the
         # importing run manages in different engines
         engines_b = split if mode == "split_only_importing" else engines
+        # stored observations are used instead of tasking ("imported"), in addition to it ("both": they must still all arrive), or not at all
+        obs_mode = "none" if not c["obs_imported"] else ("both" if c.get("obs_both") else "imported")
+        rec.label("observations:" + obs_mode)
         rec.label("importing_engines:" + (mode or "one"))
         cfg_b = kit.scenario_config(
             t0, t0 + timedelta(seconds=(n + 1) * dt), dt, engines_b, seq_filter={"alpha": 0.5},
             propagation={"target_realtime_propagation": not targets_imported, "sensor_realtime_propagation": not c["sensors_imported"]},
-            observation={"realtime_observation": not c["obs_imported"], "background": True})
+            observation={"realtime_observation": obs_mode != "imported", "background": True})
         fed = {}
         orig_init = eu.EstUpdateRegistration.__init__
         step = {"k": 0}
 
         def logged_init(self_, registrant, handle, observations):
-            fed.setdefault(step["k"], {})[registrant.simulation_id] = [(o.sensor_id, o.target_id) for o in observations]
+            # (observations read from the importer database carry their row id, those made during this run have none yet)
+            fed.setdefault(step["k"], {})[registrant.simulation_id] = [(o.sensor_id, o.target_id) for o in observations if obs_mode != "both" or getattr(o, "id", None) is not None]
             return orig_init(self_, registrant, handle, observations)
 
         eu.EstUpdateRegistration.__init__ = logged_init
